@@ -8,14 +8,11 @@ import re
 from collections import namedtuple
 
 from ural.ensure_protocol import ensure_protocol
-from ural.utils import pathsplit, urlsplit, urlunsplit, safe_urlsplit, SplitResult
-from ural.patterns import DOMAIN_TEMPLATE
+from ural.get_hostname import get_hostname
+from ural.utils import pathsplit, urlsplit, urlunsplit, safe_urlsplit
 
 TELEGRAM_MESSAGE_ID_RE = re.compile(r"^\d+$")
 TELEGRAM_DOMAINS_RE = re.compile(r"(?:^|\.)(?:telegram\.(?:org|me)|t\.me)$", re.I)
-TELEGRAM_URL_RE = re.compile(
-    DOMAIN_TEMPLATE % r"(?:[^.]+\.)*(?:telegram\.(?:org|me)|t\.me)", re.I
-)
 TELEGRAM_PUBLIC_REPLACE_RE = re.compile(
     r"^(?:[^.]+\.)?(?:telegram\.(?:org|me)|t\.me)", re.I
 )
@@ -40,10 +37,12 @@ def is_telegram_url(url):
         bool: Whether given url is from Telegram.
 
     """
-    if isinstance(url, SplitResult):
-        return bool(re.search(TELEGRAM_DOMAINS_RE, url.hostname))
+    hostname = get_hostname(url)
 
-    return bool(re.match(TELEGRAM_URL_RE, url))
+    if hostname is None:
+        return False
+
+    return bool(re.search(TELEGRAM_DOMAINS_RE, hostname))
 
 
 def convert_telegram_url_to_public(url):
